@@ -8,6 +8,8 @@ package wsflate
 import (
 	"io"
 
+	"github.com/gobwas/httphead"
+
 	"github.com/gobwas/ws"
 )
 
@@ -221,8 +223,15 @@ func validOffer(p Parameters) bool {
 //@   ensures [wf] err == nil ==> validOffer(*p)
 //@   assigns *p
 
+// ufOptionOf(p): the httphead.Option that encodes p (uninterpreted; built by the dependency's
+// Parameters.Set, which is outside the verified code).
+func ufOptionOf(p Parameters) httphead.Option { return httphead.Option{} }
+
+func eqvOption(a, b httphead.Option) bool { return a.Equal(b) }
+
 //@ func Parameters.Option
 //@   trusted
+//@   ensures [enc] eqvOption(result, ufOptionOf(p))
 //@   assigns nothing
 
 //@ func Extension.Negotiate
@@ -231,4 +240,6 @@ func validOffer(p Parameters) bool {
 //@   ensures  [once]  old(n.accepted) ==> n.accepted && n.params == old(n.params)
 //@   ensures  [legal] n.accepted && !old(n.accepted) ==> err == nil && specLegal(n.Parameters, n.params)
 //@   ensures  [cfg]   n.Parameters == old(n.Parameters)
+//@   ensures  [answer] n.accepted && !old(n.accepted) ==> eqvOption(accept, ufOptionOf(n.Parameters))
+//@   ensures  [decline] !(n.accepted && !old(n.accepted)) ==> accept.Size() == 0
 //@   assigns n.accepted, n.params
